@@ -207,9 +207,11 @@ ADAPTERS = {
     "jsonfile-url+fileobj": ["x1", "y2", "Xn", "B"],
     "avro-url+fileobj": ["x1", "y2", "Xn", "x3"],
     "fileobj": ["x1", "y2", "Xn", "B"],
+    "csv-headerless-uri": ["x1", "y2", "Xn", "x3"],
     "concat": ["x1", "y2", "Xn", "B"],
     "concat.gz": ["x1", "y2", "Xn", "B"],
 }
+HEADERLESS_FIELDS = ["a", "n", "_generated"]  # (the timestamp column keeps two readings of the file comparable)
 ASEL = ["r.n == 1", "r.n > 1", "r.a == 'x'", "'x' in r.a", "lower(r.a) == 'x'", "any(c == 'x' for c in r.a)", "Type.string == 'x'", "r.zz == 1",
         "name(r) == 't/a'", "field_contains(r, ['a'], ['X'])", "r.n in [1, 2]", "not r.n", "r.n == '1'", "r.a == 'x' and r.n", "True", "False",
         "r.b == 'x' or r.a == 'y'", "any(x == 'q' for x in r.l)", "r.n + 1 == 3", "1 < r.n < 3", "r._source == None", "Type.varint >= 2",
@@ -225,6 +227,16 @@ def write_source(adapter, records):
     d = os.environ["VERIF_SCRATCH"]
     _n[0] += 1
     base = os.path.join(d, "c10-%d-%d" % (os.getpid(), _n[0]))
+    if adapter == "csv-headerless-uri":
+        # a CSV file without header row; the column names travel in the URI (?fields=...), the selector comes as keyword
+        import csv as _csv
+
+        p = base + ".csv"
+        with open(p, "w", newline="") as f:
+            wr = _csv.writer(f)
+            for r in records:
+                wr.writerow([(getattr(r, k).isoformat() if k == "_generated" else getattr(r, k)) if getattr(r, k) is not None else "" for k in HEADERLESS_FIELDS])
+        return p
     if adapter in ("concat", "concat.gz"):
         # `cat part1 part2`: two complete streams (each with its own header and descriptors) in one source
         import gzip
@@ -278,6 +290,9 @@ QUERY_DOOR = {"path": "stream://%s", "path.gz": "stream://%s", "jsonfile": "json
 
 def open_reader(adapter, p, selector=None, via_query=False):
     from flow.record import RecordReader, RecordStreamReader
+
+    if adapter == "csv-headerless-uri":
+        return RecordReader("csvfile://" + p + "?fields=" + ",".join(HEADERLESS_FIELDS), selector=selector)
 
     if via_query:
         # the selector travels inside the URI (?selector=...), no keyword argument at all
